@@ -125,6 +125,14 @@ class Facts:
             for op, a, b in zip(cond.ops, operands, operands[1:]):
                 f = f._assume_cmp(lz, op, a, b, pol, cond)
             return f
+        if isinstance(cond, (ast.Name, ast.Attribute)):
+            # truthiness of a container: `if xs:` / `if not xs:` say len(xs) >= 1 / len(xs) == 0.  For a non-container the
+            # symbol len(xs) occurs nowhere else, so the extra fact is inert.
+            ln = lz.lin(ast.Call(func=ast.Name(id="len", ctx=ast.Load()), args=[cond], keywords=[]))
+            f = self.add_truth(norm(cond), pol)
+            if ln is not None:
+                f = f.add_lin(L.add(ln, L.const(-1))) if pol else f.add_lin(L.scale(ln, -1))
+            return f
         return self.add_truth(norm(cond), pol)
 
     def _assume_cmp(self, lz: L.Linearizer, op: ast.cmpop, a: ast.AST, b: ast.AST, pol: bool, whole: ast.AST) -> "Facts":
@@ -786,6 +794,20 @@ def summarise_module(funcs: Dict[str, ast.FunctionDef]) -> Dict[str, Dict[Tuple[
             continue
         params = [a.arg for a in fn.args.args]
         stored = {n.id for n in ast.walk(fn) if isinstance(n, ast.Name) and isinstance(n.ctx, ast.Store)}
+        # locals assigned exactly once by a plain `name = expr` (e.g. `end = i + 3`) are read through
+        once: Dict[str, ast.AST] = {}
+        counts: Dict[str, int] = {}
+        for n in ast.walk(fn):
+            if isinstance(n, ast.Name) and isinstance(n.ctx, ast.Store):
+                counts[n.id] = counts.get(n.id, 0) + 1
+        for n in ast.walk(fn):
+            if isinstance(n, ast.Assign) and len(n.targets) == 1 and isinstance(n.targets[0], ast.Name) and counts.get(n.targets[0].id) == 1:
+                once[n.targets[0].id] = n.value
+
+        def through(e: ast.AST, depth: int = 3) -> ast.AST:
+            if depth and isinstance(e, ast.Name) and e.id in once and e.id not in params:
+                return through(once[e.id], depth - 1)
+            return e
         rets = [r for r in _walk_own_returns(fn)]
         if not rets or any(r.value is None for r in rets):
             continue
@@ -801,7 +823,7 @@ def summarise_module(funcs: Dict[str, ast.FunctionDef]) -> Dict[str, Dict[Tuple[
                     continue
                 cs: List[int] = []
                 for r in rets:
-                    e = r.value.elts[k] if k is not None else r.value  # type: ignore[union-attr]
+                    e = through(r.value.elts[k] if k is not None else r.value)  # type: ignore[union-attr]
                     f = lz.lin(e)
                     if f is None or set(map(str, L.symbols(f))) != {pn} or f[L.symbols(f)[0]] != 1:
                         break
